@@ -85,6 +85,16 @@ def run(ctx, params):
       rng = ctx.rng("doc", params["shard"], i)
       adoc0, classes = model_docs.generate(rng, "text", None, p_markup=0.15, arrow=(i % 3 == 0), p_anim=0.15, p_uspace=0.08 if i % 2 else 0.0)
       style_spans(rng, adoc0, classes)
+      if i % 7 == 4 and adoc0.regions:
+        # a centre-aligned region away from the top: the line position of its cues is the middle of the region
+        r0 = adoc0.regions[0]
+        L, dmake = model_docs.L, model_docs.dmake
+        r0.styles["DisplayAlign"] = ("E", "DisplayAlignType", "center")
+        r0.styles["Origin"] = dmake("CoordinateType", x=L(10, "%"), y=L(rng.choice([20, 40, 55]), "%"))
+        r0.styles["Extent"] = dmake("ExtentType", height=L(rng.choice([20, 30]), "%"), width=L(80, "%"))
+        r0.styles.pop("Position", None)
+        r0.anims = [x for x in r0.anims if x[0] not in ("DisplayAlign", "Origin", "Extent", "Position")]
+        classes = set(classes) | {"centre-aligned-region"}
       if i % 5 == 2 and adoc0.body is not None:
         # times whose rounding to the millisecond carries into the seconds, minutes and hours fields (begin < end and the
         # order of cues are read from the printed time codes)
